@@ -1426,7 +1426,7 @@ class Executor:
 
     LIFTABLE = {'PartialEq::eq', 'PartialEq::ne', 'str::len', 'String::len', 'str::is_empty', 'str::contains', 'str::ends_with',
                 'str::starts_with', 'str::trim_end_matches', 'str::trim_start_matches', 'str::trim', 'str::to_lowercase', 'str::to_ascii_lowercase',
-                'str::chars', 'str::split', 'Iterator::all', 'Iterator::any', 'Token::text', 'Token::text_lowercase',
+                'str::chars', 'str::bytes', 'u8::is_ascii_whitespace', 'str::split', 'Iterator::all', 'Iterator::any', 'Token::text', 'Token::text_lowercase',
                 'Token::nt_separated', 'Token::not_a_number_part', 'Set::contains', 'String::as_str', 'Deref::deref',
                 'char::is_whitespace', 'char::is_ascii_whitespace', 'char::is_alphabetic', 'char::is_alphanumeric',
                 'Iterator::last', 'CharwiseDoubleArrayAhoCorasick::leftmost_find_iter', 'ToOwned::to_owned',
